@@ -4,6 +4,7 @@ CONSTANTS
   EnvSet <- MCEnvSet
   ArgvSet <- MCArgvSet
   MaxParses = 1
+  EnvChanges = FALSE
 INVARIANTS TypeOK
 PROPERTIES Terminates
 CHECK_DEADLOCK FALSE
